@@ -583,6 +583,29 @@ func c20Perm(r *fw.Rec, s corpus.Source) {
 	}
 	n := len(chunks)
 	rng := r.Ctx().Rand("perm/" + s.ID)
+	// the same definitions in the same order, laid out differently: top-level
+	// definitions indented by PRNG amounts of spaces and tabs (LLVM does not care
+	// where on the line a definition starts): the print must not change
+	{
+		var sb strings.Builder
+		sb.WriteString(prefix)
+		for _, c := range chunks {
+			sb.WriteString(strings.Repeat(" ", rng.Intn(9)))
+			if rng.Intn(4) == 0 {
+				sb.WriteString("\t")
+			}
+			sb.WriteString(c)
+		}
+		if mi, ei, pi := parseGuard(s.ID, sb.String()); pi == "" && ei == nil {
+			if yi, ppi := printGuard(mi); ppi == "" && yi != base {
+				r.Violate(fw.Violation{Key: "layout-dependent/" + s.ID, Input: sb.String(), What: "the same definitions in the same order, with the first line of each top-level definition indented, print differently: " + firstDiffLines(base, yi), Expected: base, Observed: yi})
+				return
+			}
+			r.Tally("permutations", "indented-layout-prints-alike")
+		} else {
+			r.Tally("permutations", "indented-layout-not-accepted(not judged)")
+		}
+	}
 	var perms [][]int
 	if n <= 5 {
 		perms = allPerms(n)
